@@ -612,12 +612,11 @@ Proof. reflexivity. Qed.
 
 Lemma final_cfg_fixed (c : cfgR) hist :
   c_vars (final_cfg c hist) = c_vars c /\ c_use_grids (final_cfg c hist) = c_use_grids c /\
-  c_keep (final_cfg c hist) = c_keep c /\ c_wt (final_cfg c hist) = c_wt c /\ c_eb (final_cfg c hist) = c_eb c /\
-  c_gfreq (final_cfg c hist) = c_gfreq c /\ c_geom0 (final_cfg c hist) = c_geom0 c.
+  c_keep (final_cfg c hist) = c_keep c /\ c_eb (final_cfg c hist) = c_eb c /\ c_geom0 (final_cfg c hist) = c_geom0 c.
 Proof.
   revert c. induction hist as [|e hist IH]; intros c; [repeat split|].
-  rewrite final_cfg_cons. destruct (IH (next_cfg c e)) as (H1 & H2 & H3 & H4 & H5 & H6 & H7).
-  rewrite H1, H2, H3, H4, H5, H6, H7. destruct e; repeat split.
+  rewrite final_cfg_cons. destruct (IH (next_cfg c e)) as (H1 & H2 & H3 & H4 & H5).
+  rewrite H1, H2, H3, H4, H5. destruct e; repeat split.
 Qed.
 
 Lemma frun_app {A} (f : cfgR -> A -> eventR -> A) h1 : forall c h2 a,
@@ -820,36 +819,41 @@ Fixpoint plain_hills (c : cfgR) (hist : list eventR) : list hillR :=
        end) ++ plain_hills (next_cfg c e) r
   end.
 
-Lemma deposited_plain c hist : c_wt c = false -> c_eb c = false -> s_all (spec_run c hist) = plain_hills c hist.
+(* no reconfiguration switches wellTempered on *)
+Definition never_wt (e : eventR) : Prop := match e with EReconf p => p_wt p = false | _ => True end.
+
+Lemma deposited_plain c hist : c_wt c = false -> c_eb c = false -> Forall never_wt hist ->
+  s_all (spec_run c hist) = plain_hills c hist.
 Proof.
-  intros W B. unfold spec_run.
-  assert (Hgen : forall hist c s, c_wt c = false -> c_eb c = false ->
+  intros W B N. unfold spec_run.
+  assert (Hgen : forall hist c s, c_wt c = false -> c_eb c = false -> Forall never_wt hist ->
             s_all (frun spec_event c hist s) = s_all s ++ plain_hills c hist).
-  { clear. induction hist as [|e hist IH]; intros c s W B; cbn [frun plain_hills].
+  { clear. induction hist as [|e hist IH]; intros c s W B N; cbn [frun plain_hills].
     - rewrite app_nil_r. reflexivity.
-    - assert (W' : c_wt (next_cfg c e) = false) by (destruct e; exact W).
+    - inversion N as [|e' l' Ne Nl]; subst.
+      assert (W' : c_wt (next_cfg c e) = false) by (destruct e; try exact W; exact Ne).
       assert (B' : c_eb (next_cfg c e) = false) by (destruct e; exact B).
-      rewrite (IH _ _ W' B'). destruct e as [i| |r| |p]; cbn [spec_event].
+      rewrite (IH _ _ W' B' Nl). destruct e as [i| |r| |p]; cbn [spec_event].
       + rewrite s_all_step. unfold spec_height, eb_factor. rewrite W, B.
         replace (c_weight c * (1 * 1)) with (c_weight c) by ring. rewrite <- app_assoc. reflexivity.
       + rewrite s_all_save. reflexivity.
       + rewrite s_all_restart. reflexivity.
       + rewrite s_all_save. reflexivity.
       + rewrite (s_all_restart _ _ None). reflexivity. }
-  rewrite (Hgen hist c _ W B). reflexivity.
+  rewrite (Hgen hist c _ W B N). reflexivity.
 Qed.
 
 (* hills are tabulated at the steps that are multiples of gridsUpdateFrequency, and when the state is written *)
 Lemma tabulated_snoc c hist i : c_use_grids c = true ->
-  s_pend (spec_run c (hist ++ [EStep i])) = (if (i_it i mod c_gfreq c =? 0)%Z then [] else
+  s_pend (spec_run c (hist ++ [EStep i])) = (if (i_it i mod c_gfreq (final_cfg c hist) =? 0)%Z then [] else
      s_pend (spec_run c hist) ++
      (let c' := final_cfg c hist in
       if eligible c' i
       then [mkHill (i_it i) (spec_height c' (spec_expand c' (spec_run c hist) (i_x i)) i) (i_x i) (c_sigmas c')] else [])).
 Proof.
   intros G. rewrite spec_run_snoc. cbn [spec_event]. unfold spec_step, spec_proj, spec_tabulate, spec_dep.
-  destruct (final_cfg_fixed c hist) as (_ & Hu & _ & _ & _ & Hgf & _). rewrite Hu, Hgf, G.
-  destruct (i_it i mod c_gfreq c =? 0)%Z; [reflexivity|]. cbv zeta.
+  destruct (final_cfg_fixed c hist) as (_ & Hu & _). rewrite Hu, G.
+  destruct (i_it i mod c_gfreq (final_cfg c hist) =? 0)%Z; [reflexivity|]. cbv zeta.
   destruct (eligible (final_cfg c hist) i); cbn [s_pend spec_expand]; rewrite ?app_nil_r; reflexivity.
 Qed.
 
